@@ -45,7 +45,7 @@ RULE = ("annotations = all expression trees with <= 1 constructor level (DESIGN 
         "{list,Optional,Annotated,Array,tuple[T,U],Union}. Separate classes: "
         "Annotated[T,'m'] (string metadata), the literal None, the literal triples of tests/test_typing.py. Pipelines: "
         "pair/chain/fan-in/fan-out wirings of a sub-alphabet, edges direct / element-wise map / reduction (whole, 'y[i, :]', "
-        "'y[:]'), validate_type_annotations in {True,False}, built by Pipeline([...]) and by add(), in dependency order and reversed (2 nodes: 25 annotations, all "
+        "'y[:]'), two-output producers incl. renamed and name-swapped outputs, validate_type_annotations in {True,False}, built by Pipeline([...]) and by add(), in dependency order and reversed (2 nodes: 25 annotations, all "
         "ordered pairs; 3 nodes: 6 annotations per slot, thorough 7). A pair is distinct by "
         "construction (distinct trees) and non-trivial iff the reference verdict is must/must-not and was reached by "
         "descending into union members, generic arguments, TypeVar bounds or a subclass decision (not by identity, Any, "
@@ -529,6 +529,14 @@ WIRINGS = {
                                        [(0, 1, "elementwise")]),
         "reduce-partial-tuple-producer": ([(_F, ["x", "v"], ("y", "y2"), 0, {}, "x[i], v[j] -> y[i, j], y2[i, j]"),
                                            (_G, ["y"], "z", None, {"y": 1}, "y[i, :] -> z[i]")], [(0, 1, "reduce")]),
+        # the two outputs of the producer are RENAMED (7th field = renames original -> new; the annotation of `y` is the one of
+        # the output that is CALLED y after renaming): fresh names, and the two names swapped
+        "direct-tuple-producer-renamed": ([(_F, ["x"], ("y0", "y20"), 0, {}, None, {"y0": "y", "y20": "y2"}), (_G, ["y"], "z", None, {"y": 1}, None)],
+                                          [(0, 1, "direct")]),
+        "elementwise-tuple-producer-renamed": ([(_F, ["x"], ("y0", "y20"), 0, {}, "x[i] -> y[i], y2[i]", {"y0": "y", "y20": "y2"}),
+                                                (_G, ["y"], "z", None, {"y": 1}, "y[i] -> z[i]")], [(0, 1, "elementwise")]),
+        "direct-tuple-producer-swapped": ([(_F, ["x"], ("y", "y2"), 0, {}, None, {"y": "y2", "y2": "y"}, "second"), (_G, ["y"], "z", None, {"y": 1}, None)],
+                                          [(0, 1, "direct")]),
     },
     "chain": {  # f -> y:A ; g(y:B) -> z:C ; h(z:D)
         "direct-direct": ([(_F, ["x"], "y", 0, {}, None), (_G, ["y"], "z", 2, {"y": 1}, None), (_H, ["z"], "w", None, {"z": 3}, None)],
@@ -605,11 +613,16 @@ def run_pipe(case):  # noqa: C901, PLR0912, PLR0915
         with warnings.catch_warnings(), contextlib.redirect_stdout(io.StringIO()):
             warnings.simplefilter("ignore")
             pfs = []
-            for name, params, out, ret_slot, pslots, mapspec in funcs:
+            for name, params, out, ret_slot, pslots, mapspec, *more in funcs:
                 annotations = {p: obj(anns[sl]) for p, sl in pslots.items() if anns[sl] != NOANN}
                 if ret_slot is not None and anns[ret_slot] != NOANN:
-                    annotations["return"] = obj(anns[ret_slot]) if not isinstance(out, tuple) else tuple[obj(anns[ret_slot]), int]
-                pfs.append(PipeFunc(_mkfunc(name, params, annotations), out, mapspec=mapspec))
+                    if not isinstance(out, tuple):
+                        annotations["return"] = obj(anns[ret_slot])
+                    elif len(more) > 1 and more[1] == "second":  # swapped names: the output CALLED y is the second element
+                        annotations["return"] = tuple[int, obj(anns[ret_slot])]
+                    else:
+                        annotations["return"] = tuple[obj(anns[ret_slot]), int]
+                pfs.append(PipeFunc(_mkfunc(name, params, annotations), out, mapspec=mapspec, **({"renames": dict(more[0])} if more else {})))
             if mode == "ctor":
                 Pipeline(pfs, validate_type_annotations=validate)
             elif mode == "ctor-reversed":  # consumers listed before their producers
@@ -665,7 +678,7 @@ def run_pipe(case):  # noqa: C901, PLR0912, PLR0915
 
 def _slot_sites(funcs):
     """annotation slot of a consumer parameter -> (parameter name, function name)"""
-    return {sl: (p, name) for name, _, _, _, pslots, _ in funcs for p, sl in pslots.items()}
+    return {sl: (p, name) for name, _, _, _, pslots, *_ in funcs for p, sl in pslots.items()}
 
 
 # ------------------------------------------------------------------------------------------------
